@@ -198,7 +198,9 @@ class Routing:
             if empty and (not self.was_empty[d] or d in got):
                 self.empty_since[d] = now
                 self.clean[d] = True
-            if d in rewired or blocked_now.get(d) or not oper:
+            # Shutdown / failure and rewiring restart the idle clock in the library (and arguably should); a blocked
+            # input does not: a blocked device that holds nothing is still idle, and stays 'idle since it emptied'.
+            if d in rewired or not oper:
                 self.clean[d] = False
             self.was_empty[d] = empty
         self.blocked = blocked_now
